@@ -477,6 +477,12 @@ def const_int(t):
         return t[2]
     if t[0] == "call" and t[1] in ("cosmwasm_std::Uint128::zero",):
         return 0
+    if t[0] == "item":
+        # a named integer constant (`const IBC_DENOM_HASH_LEN: usize = 64;`)
+        import engine.mir as _m
+        init = _m.CURRENT.const_init(t[1]) if _m.CURRENT is not None else None
+        if init is not None and init[0] == "const" and init[1] == "int":
+            return init[2]
     return None
 
 
@@ -787,7 +793,8 @@ def len_outcomes(prog, ctx, is_subject, extra=()):
     out = {}
     for v in int_samples(prog, ctx, isl, extra):
         w = ctx.assume_len(is_subject, v).settle()
-        out[v] = any(e["kind"] != "err" for e in exits(w))
+        from engine.analysis import success_exits as _sx
+        out[v] = bool(_sx(w))  # (a tail `cond.then_some(s).ok_or_else(..)` succeeds only where the world lets cond hold)
     return out
 
 
